@@ -4,7 +4,8 @@ iff the entity has one with the entity's value unchanged, Date and Last-Modified
 whenever the entity has a modification time; (R2) Last-Modified is
 fmt(min(mtime, now)) and Date is fmt of the same `now`; (R3) Entity::add_headers
 is applied once to 200 and to 206-without-If-Range responses and never to
-304/412/416; (R4) date conditions compare the modification time truncated to the
+304/412/416, and the crate's own file entity keeps the caller's header map and
+appends every (name, value) of it (repeated names included); (R4) date conditions compare the modification time truncated to the
 second (rows of C04.R1 with a sub-second mtime); (R5) the round-trip clauses are
 rows of the C04 / C05 tables with the request validator equal to the served one
 (reflexivity of the extracted comparator tables: weak(x,x) always, strong(x,x)
@@ -42,6 +43,9 @@ def run(ctx):
     SM.c14_matrix(ctx, M)
     SM.c14_clamp(ctx, M)
     SM.c14_entity_headers(ctx, M)
+    # ... and the crate's own entity hands on every header it was constructed with
+    from . import C18
+    C18.headers_complete(ctx, "C14.R3.file")
     # R4: the date rows of the conditional table (includes sub-second modification times and the equal-second requests)
     C04.r1_table(ctx)
     r5_roundtrip(ctx)
